@@ -264,6 +264,31 @@ def fetchDefn (e : Envs) (fuel : Nat) (diff : Bool) (master src : Obj) : R (Opti
     | _, .error err => .error err
     | .ok a, .ok b => if a == b then .ok none else .ok r
 
+/-- `master_as_str` of a `.multiple` master object.  A definition is rendered as it stands
+    (`master_object.extract_format().as_str()`); a scope is first fetched against itself
+    (`master_object.fetch()`, no sources, never in diff mode — `self` is the outcome of that call) so that
+    further instances of nested `.multiple` objects declared in its own content are merged before the
+    block is extracted: `master_object.extract_format(source=master_object.fetch()).as_str()`.
+    For a definition `self` is not looked at. -/
+def masterKeyOf (e : Envs) (fuel : Nat) (mo : Obj) (self : R (Obj × List Nat)) : R Str :=
+  match mo with
+  | .defn _ _ => extractFormatStr e (fuel + 64) mo mo
+  | .scope _ _ =>
+    match self with
+    | .error err => .error err
+    | .ok (ro, _) => extractFormatStr e (fuel + 64) mo ro
+
+/-- the default instance a mandatory (`.optional=False`) `.multiple` master object contributes to a
+    non-diff result: live content, not a template (`is_template = 0`).  For a definition it is the
+    master's copy; for a scope it is the scope's own fetch (`obj = master_object.fetch()`, the same
+    call as for the master key — `self`), so that further instances of nested `.multiple` objects
+    are merged in it like in any other instance.  (`self` is a success whenever this is used for a
+    scope: `masterKeyOf` has failed otherwise.) -/
+def defaultInstOf (mo : Obj) (self : R (Obj × List Nat)) : Obj :=
+  match mo, self with
+  | .scope _ _, .ok (ro, _) => withTmpl ro 0
+  | _, _ => withTmpl mo 0
+
 structure FetchOut where
   obj : Obj
   used : List Nat        -- primary ids of source definitions marked tmp=True
@@ -307,7 +332,13 @@ def fetchScope (e : Envs) : Nat → Bool → Meta → List Obj → List Obj → 
                  if diff && ro.children.isEmpty then .ok (out, used ++ u2) else .ok (out ++ [ro], used ++ u2))
         else
           -- multiple
-          match extractFormatStr e (fuel + 64) mo mo with
+          -- `master_object.fetch()` (a scope only): rendered for the master key, and emitted as the
+          -- default instance of a mandatory object
+          let self : R (Obj × List Nat) :=
+            match mo with
+            | .scope mm kids => fetchScope e fuel false mm kids []
+            | .defn _ _ => .error .outOfFuel
+          match masterKeyOf e fuel mo self with
           | .error err => .error err
           | .ok masterStr =>
             let fromMaster : List (Bool × Obj) :=
@@ -358,8 +389,8 @@ def fetchScope (e : Envs) : Nat → Bool → Meta → List Obj → List Obj → 
             | .ok (robjs, processed, used) =>
               let tmplObjs : List Obj :=
                 if diff then [] else
-                  let t : Int := if (mo.attr "optional").mandatory then 0 else if processed.isEmpty then 1 else -1
-                  [withTmpl mo t]
+                  if (mo.attr "optional").mandatory then [defaultInstOf mo self]
+                  else [withTmpl mo (if processed.isEmpty then 1 else -1)]
               .ok (out ++ tmplObjs ++ robjs.filterMap (fun (x : Option Obj) => x), used)
       match actives.foldlM step (([] : List Obj), ([] : List Nat)) with
       | .error err => .error err
